@@ -8,7 +8,7 @@
 From Coq Require Import Reals List String.
 From Coquelicot Require Import Coquelicot.
 From SpdVerif Require Import Base.Rx Base.CxPM Model.PMParams Gen.PMIntegrand Proofs.C06_algebra Proofs.C06_swap Proofs.C06_defined
-  Proofs.C06_spectrum.
+  Proofs.C06_spectrum Proofs.C07_counts Proofs.C06_cells.
 Local Open Scope R_scope.
 
 (* the two algebraic identities: the exponent of the integrand in manifestly exchange-symmetric form, for arbitrary complex A1..A10 *)
@@ -81,8 +81,24 @@ Theorem C06_counts_coincidences_exchange_ratio : forall Q S Ssw p0 pts dw2,
   pm_counts_coincidences Q S p0 pts dw2 * p_ng_i p0.
 Proof. exact counts_coincidences_exchange_ratio. Qed.
 
-(* clause 4: idler singles.  The spectrum is, by construction of the code, the exchanged setup's signal singles spectrum on the
-   transposed grid; the RATE equals the exchanged setup's signal singles rate when the correction factor is symmetric (PARTIAL, as
+(* the same with the cell area the code uses: dw2 = dws * dwi from Steps2D::division_widths() (pinned by the generator to the division
+   widths of the two axes; cell_area = product of the GENERATED steps_division_width of each axis, Proofs/C07_counts.v).  The exchanged
+   setup's grid is the transposed one, with the widths in the other order. *)
+Theorem C06_counts_coincidences_exchange_cells : forall Q S Ssw p0 pts xs xe nx ys ye ny,
+  exchange_tie S Ssw -> (forall x, In x pts -> pm_physical (S (fst x) (snd x))) ->
+  p_lambda_p p0 <> 0 -> p_n_s0 p0 <> 0 -> p_n_i0 p0 <> 0 -> p_n_p0 p0 <> 0 ->
+  pm_counts_coincidences Q Ssw (pm_swap p0) (transpose pts) (cell_area ys ye ny xs xe nx) * p_ng_s p0 =
+  pm_counts_coincidences Q S p0 pts (cell_area xs xe nx ys ye ny) * p_ng_i p0.
+Proof. exact counts_coincidences_exchange_cells. Qed.
+
+Theorem C06_singles_idler_rate_exchange_cells : forall Ssw jsis p0 pts xs xe nx ys ye ny,
+  p_lambda_p p0 <> 0 -> p_n_s0 p0 <> 0 -> p_n_i0 p0 <> 0 -> p_n_p0 p0 <> 0 ->
+  pm_counts_singles_idler jsis Ssw p0 pts (cell_area xs xe nx ys ye ny) * p_ng_i p0 =
+  pm_counts_singles_signal jsis Ssw (pm_swap p0) (transpose pts) (cell_area ys ye ny xs xe nx) * p_ng_s p0.
+Proof. exact singles_idler_rate_exchange_cells. Qed.
+
+(* clause 4: idler singles.  DEFINITIONAL: the code computes the idler singles through the exchanged setup (shape pinned by the generator), so
+   the spectrum statement below is that definition unfolded (map_map), not an independent fact; the RATE equals the exchanged setup's signal singles rate when the correction factor is symmetric (PARTIAL, as
    above), and in general up to the exact factor ng_s / ng_i. *)
 Theorem C06_singles_idler_spectrum : forall Ssw jsis pts,
   pm_jsi_singles_idler_range jsis Ssw pts = map (fun x => jsis (Ssw (fst x) (snd x))) (transpose pts).
@@ -120,6 +136,9 @@ Proof. exact physical_example. Qed.
 Example C06_physical_real_example : pm_physical_real pm_example.
 Proof. exact physical_real_example. Qed.
 
+Example C06_equal_group_index_example : p_ng_s (pm_set_ng 1.8 pm_example) = p_ng_i (pm_set_ng 1.8 pm_example).
+Proof. exact equal_group_index_example. Qed.
+
 Example C06_exchange_tie_example : exchange_tie (fun ws wi => pm_example) (fun a b => pm_swap pm_example).
 Proof. exact (fun ws wi => eq_refl). Qed.
 
@@ -135,6 +154,8 @@ Print Assumptions C06_normalisation_symmetric.
 Print Assumptions C06_jsi_grid_sum_exchange.
 Print Assumptions C06_counts_coincidences_exchange_partial.
 Print Assumptions C06_counts_coincidences_exchange_ratio.
+Print Assumptions C06_counts_coincidences_exchange_cells.
+Print Assumptions C06_singles_idler_rate_exchange_cells.
 Print Assumptions C06_singles_idler_spectrum.
 Print Assumptions C06_singles_idler_rate_partial.
 Print Assumptions C06_singles_idler_rate_ratio.
